@@ -217,6 +217,18 @@ fn c10_blocks(ctx: &Ctx) -> Vec<Blk> {
             }
         }
     }
+    // one write spanning many chunks (several publications inside a single call), chunk 4096
+    for prog in [
+        vec![POp::Write(6 * 4096)],
+        vec![POp::Write(5 * 4096 + 100), POp::Flush],
+        vec![POp::Write(6 * 4096), POp::Wait],
+        vec![POp::Write(100), POp::Write(6 * 4096), POp::Wait],
+        vec![POp::Wait, POp::Write(8 * 4096), POp::Flush, POp::Wait],
+    ] {
+        for policy in POLICIES {
+            b.push(Blk::Enum { chunk: 4096, gzip: None, prog: prog.clone(), policy, cap: if thorough(ctx) { 6000 } else { 600 }, bound: u32::MAX });
+        }
+    }
     let n_rand = if thorough(ctx) { 64 } else { 16 };
     for k in 0..n_rand {
         b.push(Blk::Random { chunk: [2usize, 1, 3, 4096][k % 4], gzip: if k % 5 == 4 { Some(1) } else { None }, n: if thorough(ctx) { 1600 } else { 250 }, len: (3, 6), salt: k as u64 });
